@@ -13,6 +13,8 @@ import Golib.HMap.LinkedStep
 import Golib.HMap.Types
 import Golib.HMap.Multi
 import Golib.HMap.Enum
+import Golib.HMap.MultiLemmas
+import Golib.HMap.WireLemmas
 
 set_option linter.unusedSectionVars false
 
@@ -409,6 +411,46 @@ theorem pool_target (hash : K → Nat) (thr : Nat → Nat) (d : Desc K V) (dflt 
     (poolStep (LMap.step hash thr d) dflt pool i op).2 = (LMap.step hash thr d (pool.getD i dflt) op).2 :=
   poolStep_target _ dflt pool i op h
 
+/-- **histories over several live containers**: for every interleaved history over a pool of maps (each operation names
+    its slot), the outputs are those of the pool of dictionaries and every slot still refines its own dictionary —
+    the per-call frame condition (`no_aliasing`) lifted to `foldl step`. -/
+theorem pool_refine_run (hash : K → Nat) (thr : Nat → Nat) (d : Desc K V) (dflt : LMap K V) (sdflt : S K V)
+    (ops : List (Nat × Op K V)) (pool : Array (LMap K V)) (spool : Array (S K V))
+    (h : LMap.PoolRel hash d dflt sdflt pool spool) (hops : ∀ o ∈ ops, o.1 < pool.size) :
+    (poolRun (LMap.step hash thr d) dflt pool ops).2 = (poolRun (S.step d) sdflt spool ops).2 ∧
+    LMap.PoolRel hash d dflt sdflt (poolRun (LMap.step hash thr d) dflt pool ops).1 (poolRun (S.step d) sdflt spool ops).1 :=
+  let r := LMap.pool_refine_run thr dflt sdflt ops h hops
+  ⟨r.2, r.1⟩
+
+/-! ### serialized form (IntIntLinkedMap, LongLongLinkedMap; Int/LongFloatLinkedMap with `float := true`) -/
+
+/-- the bytes decode to the entries in iteration order (exact consumption), for decimal and for float values -/
+theorem wire_decodes (es : List (Int × Int)) (r : Bytes) (hlen : Prim.inRange 8 (es.length : Int)) :
+    ((∀ e ∈ es, Prim.inRange 8 e.1 ∧ Prim.inRange 8 e.2) → P.run pairsFromBytes (pairsToBytes es ++ r) = some (es, r)) ∧
+    ((∀ e ∈ es, Prim.inRange 8 e.1 ∧ 0 ≤ e.2 ∧ e.2 < 4294967296) → P.run pairsFromBytesF (pairsToBytesF es ++ r) = some (es, r)) :=
+  ⟨run_pairsFromBytes es r hlen, run_pairsFromBytesF es r hlen⟩
+
+/-- `ToObject(ToBytes(m))` into a fresh map of any capacity is the same dictionary **in the same order**
+    (keys within the decimal codec's range; values decimals, or 32-bit float patterns) -/
+theorem linked_wire (hash : Int → Nat) (thr : Nat → Nat) (d : Desc Int Int) (float : Bool) (cap : Nat) (m : LMap Int Int)
+    (h : LMap.Inv hash d m) (hlen : Prim.inRange 8 ((m.entries hash).length : Int))
+    (hr : ∀ e ∈ m.entries hash, wireOK float e) :
+    LMap.Inv hash d (LMap.toObject hash thr float d (LMap.new thr cap) (LMap.toBytes hash float m)) ∧
+    (LMap.abs hash (LMap.toObject hash thr float d (LMap.new thr cap) (LMap.toBytes hash float m))).ents = (LMap.abs hash m).ents :=
+  LMap.linked_wire float thr cap h hlen hr
+
+/-! ### enumeration and modification -/
+
+/-- The property's premise is an enumeration "taken while the structure is not being modified"; `enumerator_protocol`
+    is exactly that case.  Outside the premise nothing is claimed: an enumerator taken before a modification and
+    drained after it need not show the new contents (here: a key put meanwhile is missed). -/
+theorem enumeration_premise_is_needed :
+    let d : Desc Int Int := { comb := fun a b => a + b, veq := fun a b => a == b }
+    let m := (LMap.run (fun _ : Int => 7) (fun c => c / 2) d (LMap.new (fun c => c / 2) 1) [.put .last 1 10]).1
+    let e := m.openEnum
+    let m' := (LMap.step (fun _ : Int => 7) (fun c => c / 2) d m (.put .last 2 20)).1
+    LEnum.drain 5 e = [1] ∧ LEnum.drain 5 m'.openEnum = [1, 2] := by decide
+
 /-! ### recorded deviations around empty string keys (D15) -/
 
 /-- full statement: a key that was put is contained.  It holds for regular descriptors … -/
@@ -493,5 +535,33 @@ example :
     (S.step d (S.put d {} .last "r" ()).1 (.containsKey "r")).2 = .bool false ∧
     (S.step d (S.put d {} .last "x" ()).1 (.containsKey "x")).2 = .bool true := by
   decide
+
+/-- `pool_refine_run`: its premise holds for a pool of fresh maps, and an interleaved history over two slots computes -/
+example :
+    let d : Desc Int Int := { comb := fun a b => a + b, veq := fun a b => a == b }
+    LMap.PoolRel (fun _ : Int => 7) d (LMap.new (fun c => c / 2) 1) {}
+      #[LMap.new (fun c => c / 2) 1, LMap.new (fun c => c / 2) 4] #[{}, {}] ∧
+    (poolRun (LMap.step (fun _ : Int => 7) (fun c => c / 2) d) (LMap.new (fun c => c / 2) 1)
+      #[LMap.new (fun c => c / 2) 1, LMap.new (fun c => c / 2) 4]
+      [(0, .put .last 1 10), (1, .put .last 1 11), (0, .put .last 2 20), (1, .get 1), (0, .entries), (1, .entries)]).2
+      = [.none, .none, .none, .val 11, .ents [(1, 10), (2, 20)], .ents [(1, 11)]] := by
+  refine ⟨⟨rfl, fun i hi => ?_⟩, by decide⟩
+  have hi' : i < 2 := hi
+  match i, hi' with
+  | 0, _ => exact inv_init (fun _ : Int => 7) (fun c => c / 2) _ 1
+  | 1, _ => exact inv_init (fun _ : Int => 7) (fun c => c / 2) _ 4
+
+/-- `linked_wire` on a concrete map: decimal values and float bit patterns, order kept (constant hash: one chain) -/
+example :
+    let d : Desc Int Int := { comb := fun a b => a + b, veq := fun a b => a == b }
+    let m := (LMap.run (fun _ : Int => 7) (fun c => c / 2) d (LMap.new (fun c => c / 2) 1)
+      [.put .last 300 (-1), .put .forceFirst (-2) 1065353216]).1
+    (LMap.toObject (fun _ => 7) (fun c => c / 2) false d (LMap.new (fun c => c / 2) 3) (LMap.toBytes (fun _ => 7) false m)).entries (fun _ => 7)
+      = [(-2, 1065353216), (300, -1)] ∧
+    m.entries (fun _ => 7) = [(-2, 1065353216), (300, -1)] ∧
+    (∀ e ∈ [((-2 : Int), (1065353216 : Int)), (300, -1)], wireOK false e) := by
+  refine ⟨by decide, by decide, fun e he => ?_⟩
+  simp only [List.mem_cons, List.mem_nil_iff, or_false] at he
+  rcases he with rfl | rfl <;> exact ⟨by decide, by decide⟩
 
 end C09
